@@ -114,7 +114,7 @@ class URI(object):
 
     def __str__(self):
         if self.protocol == "PYROMETA":
-            result = "PYROMETA:" + ",".join(self.object)
+            result = "PYROMETA:" + ",".join(sorted(self.object))
         else:
             result = self.protocol + ":" + self.object
         if self.location:
@@ -133,13 +133,18 @@ class URI(object):
         return not self.__eq__(other)
 
     def __hash__(self):
-        return hash(self.__getstate__())
+        state = self.__getstate__()
+        if self.protocol == "PYROMETA":
+            state = (state[0], frozenset(state[1])) + state[2:]
+        return hash(state)
 
     def __getstate__(self):
         return self.protocol, self.object, self.sockname, self.host, self.port
 
     def __setstate__(self, state):
         self.protocol, self.object, self.sockname, self.host, self.port = state
+        if self.protocol == "PYROMETA":
+            self.object = set(self.object)  # some serializers deliver the set of tags as a list
 
 
 class _ExceptionWrapper(object):
